@@ -216,6 +216,38 @@ impl Property for C15 {
                     obs.label("locate-roundtrip");
                 }
             }
+            // locate on ANY line string or Line (repeated vertices, self-crossings, back-tracking): the returned fraction is the
+            // position of A closest point, so interpolating it again lands as close to the query as the line gets. Queries:
+            // the interpolated point itself (distance 0) and a point off the line derived from the case
+            if eff.len() >= 2 && etotal > 0.0 {
+                let qs: Vec<P> = match res.first() {
+                    Some(Some(p)) => vec![(p.x(), p.y()), (p.x() + (r * 7.0).fract() * 3.0 - 1.0, p.y() - (r * 13.0).fract() * 2.0 + 0.5)],
+                    _ => vec![],
+                };
+                for q in qs {
+                    if !(q.0.is_finite() && q.1.is_finite()) {
+                        continue;
+                    }
+                    let qp = Point::new(q.0, q.1);
+                    #[allow(deprecated)]
+                    let loc = if kind == 0 { ls.line_locate_point(&qp) } else { Line::new(co(eff[0]), co(eff[1])).line_locate_point(&qp) };
+                    let nearest = eff.windows(2).map(|w| pt_seg(q, w[0], w[1])).fold(f64::INFINITY, f64::min);
+                    match loc {
+                        Some(f) if (0.0..=1.0).contains(&f) => {
+                            let back = walk(&eff, f * etotal);
+                            let d = dist(back, q);
+                            obs.expect(d <= nearest + tol, "line_locate_point|not-a-closest-point", || format!("query {:?} located at {f} = {:?}, {d} away, the line is {nearest} away; {}", q, back, ctx()));
+                            obs.label("locate-any-line");
+                        }
+                        other => obs.fail("line_locate_point|none-or-out-of-range".to_string(), format!("query {:?} -> {:?}; {}", q, other, ctx())),
+                    }
+                }
+            } else if eff.len() >= 2 {
+                // documented: a line of zero length gives the fraction zero
+                #[allow(deprecated)]
+                let loc = if kind == 0 { ls.line_locate_point(&Point::new(eff[0].0 + 1.0, eff[0].1)) } else { Line::new(co(eff[0]), co(eff[1])).line_locate_point(&Point::new(eff[0].0 + 1.0, eff[0].1)) };
+                obs.expect(loc == Some(0.0), "line_locate_point|zero-length-line-not-zero", || format!("{:?}; {}", loc, ctx()));
+            }
             if kind == 0 && eff.len() >= 2 && etotal > 0.0 {
                 #[allow(deprecated)]
                 let dep = ls.line_interpolate_point(r);
